@@ -20,7 +20,6 @@ import (
 func SendServiceUsageRequest(
 	ue *chf_context.ChfUe, sur *charging_datatype.ServiceUsageRequest,
 ) (*charging_datatype.ServiceUsageResponse, error) {
-	ue.RatingMux.Handle("SUA", HandleSUA(ue.RatingChan))
 	rfDiameter := factory.ChfConfig.Configuration.RfDiameter
 	addr := rfDiameter.HostIPv4 + ":" + strconv.Itoa(rfDiameter.Port)
 	conn, err := ue.RatingClient.DialNetworkTLS(rfDiameter.Protocol, addr, rfDiameter.Tls.Pem, rfDiameter.Tls.Key)
@@ -28,6 +27,11 @@ func SendServiceUsageRequest(
 		return nil, err
 	}
 	defer conn.Close()
+
+	// The answer to this request arrives on this connection; anything else the handler sees
+	// (a late or repeated answer, an answer on an older connection) is not for us.
+	answer := make(chan *diam.Message, 1)
+	ue.RatingMux.Handle("SUA", HandleSUA(conn, answer))
 
 	meta, ok := smpeer.FromContext(conn.Context())
 	if !ok {
@@ -50,7 +54,7 @@ func SendServiceUsageRequest(
 	}
 
 	select {
-	case m := <-ue.RatingChan:
+	case m := <-answer:
 		var sua charging_datatype.ServiceUsageResponse
 		if errMarshal := m.Unmarshal(&sua); errMarshal != nil {
 			return nil, fmt.Errorf("Failed to parse message from %v", errMarshal)
@@ -61,10 +65,20 @@ func SendServiceUsageRequest(
 	}
 }
 
-func HandleSUA(rgChan chan *diam.Message) diam.HandlerFunc {
+// HandleSUA hands the first answer received on conn to rgChan (which must be buffered) and never
+// blocks: the handler runs under the read lock of the state machine's mux.
+func HandleSUA(conn diam.Conn, rgChan chan *diam.Message) diam.HandlerFunc {
 	return func(c diam.Conn, m *diam.Message) {
 		logger.RatingLog.Tracef("Received SUA from %s", c.RemoteAddr())
 
-		rgChan <- m
+		if c != conn {
+			logger.RatingLog.Warnf("Discard SUA received on a connection no request is waiting on")
+			return
+		}
+		select {
+		case rgChan <- m:
+		default:
+			logger.RatingLog.Warnf("Discard SUA: the request already has its answer")
+		}
 	}
 }
